@@ -85,7 +85,7 @@ func writeJSON(b *strings.Builder, n Node) {
 			if i > 0 {
 				b.WriteString(", ")
 			}
-			b.WriteString(jstr(e.K))
+			b.WriteString(jstr(plainKey(e.K)))
 			b.WriteString(": ")
 			writeJSON(b, e.V)
 		}
@@ -144,11 +144,24 @@ func yscalar(n Node) (string, bool) {
 	return "", false
 }
 
+// RawKey marks a map key that the YAML emitter writes verbatim (unquoted): 1, true, null, [a] ...
+// JSON and TOML write it as a string without the marker.
+const RawKey = "\x00raw:"
+
+func ykey(k string) string {
+	if strings.HasPrefix(k, RawKey) {
+		return strings.TrimPrefix(k, RawKey)
+	}
+	return jstr(k)
+}
+
+func plainKey(k string) string { return strings.TrimPrefix(k, RawKey) }
+
 func writeYAMLMap(b *strings.Builder, m Map, ind int) {
 	pad := strings.Repeat("  ", ind)
 	for _, e := range m {
 		b.WriteString(pad)
-		b.WriteString(jstr(e.K))
+		b.WriteString(ykey(e.K))
 		b.WriteString(":")
 		writeYAMLValue(b, e.V, ind)
 	}
@@ -175,7 +188,7 @@ func writeYAMLValue(b *strings.Builder, n Node, ind int) {
 			switch x := e.(type) {
 			case Map:
 				// first key on the dash line
-				b.WriteString(" " + jstr(x[0].K) + ":")
+				b.WriteString(" " + ykey(x[0].K) + ":")
 				writeYAMLValue(b, x[0].V, ind+2)
 				writeYAMLMap(b, x[1:], ind+2)
 			case List:
@@ -239,7 +252,7 @@ func tinline(n Node) string {
 	case Map:
 		parts := make([]string, len(v))
 		for i, e := range v {
-			parts[i] = tstr(e.K) + " = " + tinline(e.V)
+			parts[i] = tstr(plainKey(e.K)) + " = " + tinline(e.V)
 		}
 		return "{" + strings.Join(parts, ", ") + "}"
 	}
@@ -306,10 +319,10 @@ func writeTOMLTable(b *strings.Builder, m Map, path []string) {
 				}
 			}
 		}
-		b.WriteString(tstr(e.K) + " = " + tinline(e.V) + "\n")
+		b.WriteString(tstr(plainKey(e.K)) + " = " + tinline(e.V) + "\n")
 	}
 	for _, e := range tables {
-		p := append(append([]string{}, path...), tstr(e.K))
+		p := append(append([]string{}, path...), tstr(plainKey(e.K)))
 		switch v := e.V.(type) {
 		case Map:
 			b.WriteString("\n[" + strings.Join(p, ".") + "]\n")
